@@ -176,6 +176,11 @@ func (i *Interface) getRecord(dbName string, dbKey string, mustBeWriteable bool)
 		if !i.options.hasAccessPermission(r) {
 			return nil, db, ErrPermissionDenied
 		}
+		if mustBeWriteable {
+			if err := i.checkStoredPermission(db, dbKey); err != nil {
+				return nil, db, err
+			}
+		}
 		// A cached record may have expired (or been deleted) since it
 		// entered the cache: it is no longer there for a get.
 		r.Lock()
@@ -209,6 +214,25 @@ func (i *Interface) getRecord(dbName string, dbKey string, mustBeWriteable bool)
 	return r, db, nil
 }
 
+// checkStoredPermission checks the permission to write to a record against
+// what is stored, not against the interface's cache: the record may have been
+// replaced by a protected one through another interface since it was cached.
+func (i *Interface) checkStoredPermission(db *Controller, dbKey string) error {
+	if i.options.HasAllPermissions() {
+		return nil
+	}
+	m, err := db.GetMeta(dbKey)
+	if err != nil {
+		// Nothing is stored (anymore), or the storage reports the problem
+		// when the write is attempted.
+		return nil
+	}
+	if !m.CheckPermission(i.options.Local, i.options.Internal) {
+		return ErrPermissionDenied
+	}
+	return nil
+}
+
 func (i *Interface) getMeta(dbName string, dbKey string, mustBeWriteable bool) (m *record.Meta, db *Controller, err error) { //nolint:unparam
 	if dbName == "" {
 		dbName, dbKey = record.ParseKey(dbKey)
@@ -227,6 +251,11 @@ func (i *Interface) getMeta(dbName string, dbKey string, mustBeWriteable bool) (
 	if r != nil {
 		if !i.options.hasAccessPermission(r) {
 			return nil, db, ErrPermissionDenied
+		}
+		if mustBeWriteable {
+			if err := i.checkStoredPermission(db, dbKey); err != nil {
+				return nil, db, err
+			}
 		}
 		return r.Meta(), db, nil
 	}
